@@ -245,10 +245,12 @@ def build_pool() -> dict:
         res1_extra=lambda d: {"ColorSpace": {"CS0": N("DeviceRGB")}},  # a named colour space ("plain" uses the name without defining it)
     )
     fb1 = _font("FontA", enc("WinAnsiEncoding", [65, N("delta"), N("epsilon")]))
-    fb2 = _font("FontA", enc("MacRomanEncoding", [68, N("zeta")]))
+    # a Differences entry naming a glyph without a Unicode value comes FIRST (code 67 / 66 loses the base table's character):
+    # the entry is applied to this font's own table, whatever order the entries come in
+    fb2 = _font("FontA", enc("MacRomanEncoding", [67, N("g67"), N("zeta")]))
     fb3 = _font("FontA", enc("WinAnsiEncodin", [67, N("mu"), N("nu")]))  # misspelt name: also the StandardEncoding fallback
     fb4 = _font("FontA", enc("PDFDocEncoding", [66, N("omicron")]))
-    fb5 = {"Type": N("Font"), "Subtype": N("Type1"), "BaseFont": N("Helvetica"), "Encoding": enc("WinAnsiEncoding", [65, N("pi")])}
+    fb5 = {"Type": N("Font"), "Subtype": N("Type1"), "BaseFont": N("Helvetica"), "Encoding": enc("WinAnsiEncoding", [66, N("G01"), 65, N("pi")])}
     more_b = _text("F3", 12, 72, 560, b"ABCD") + _text("F4", 12, 72, 520, b"ABCD") + _text("F5", 12, 72, 480, b"ABCD")
     pool["diffB"] = _two_pages(
         {"F1": fb1, "F2": fb2, "F3": fb3, "F4": fb4, "F5": fb5},
